@@ -259,6 +259,54 @@ def check(repo: Repo, run: Run) -> None:
         else:
             run.ob("C18.B6", f"{short}|read-only", True, f"{q} only reads the objects it is given", mod.loc(fn))
     run.floor("C18.B6", nfn, 30)
+    # B7: the induction starts at the policy's `filters` list as the level-0 node: the entry point hands the whole list to
+    # logical_connector with the default level.  Entering at an element of it (or with another level) shifts every
+    # parenthesisation decision below by one: `filters: [{and: [{or: [A, B]}, C]}]` would be emitted `A || B && C`.
+    from ..core.paths import paths_of as _paths_of
+
+    entry = mod.func("C7N_Rewriter.c7n_rewrite") if mod.has_func("C7N_Rewriter.c7n_rewrite") else None
+    if entry is None:
+        run.inconclusive("C18.B7", "c7n_rewrite", "entry point not found")
+    else:
+        try:
+            epaths = [p for p in _paths_of(mod, mod.cls("C7N_Rewriter"), entry, inline_depth=0) if p.kind == "return" and p.value is not None]
+        except OverflowError:
+            epaths = []
+        verdict, why, site = None, "no returning path of c7n_rewrite calls logical_connector", mod.loc(entry)
+        for p in epaths:
+            v = strip_cast(p.value)
+            if not (isinstance(v, ast.Call) and (dotted(v.func) or "").endswith("logical_connector")):
+                verdict, why = None, f"returns `{ast.unparse(v)[:60]}`"
+                break
+            args = list(v.args)
+            flt = args[1] if len(args) > 1 else next((k.value for k in v.keywords if k.arg in ("c7n_filter", "filter", "filters")), None)
+            lvl = args[2] if len(args) > 2 else next((k.value for k in v.keywords if k.arg == "level"), None)
+            f = strip_cast(flt) if flt is not None else None
+            whole = isinstance(f, ast.Subscript) and isinstance(f.slice, ast.Constant) and f.slice.value == "filters" or (isinstance(f, ast.Call) and isinstance(f.func, ast.Attribute) and f.func.attr == "get" and f.args and isinstance(f.args[0], ast.Constant) and f.args[0].value == "filters")
+            if lvl is not None and not (isinstance(lvl, ast.Constant) and lvl.value == 0):
+                verdict, why, site = False, f"c7n_rewrite starts logical_connector at level `{ast.unparse(lvl)}`: the parenthesisation scheme counts levels from 0 at the top-level list", mod.loc(p.node or entry)
+                break
+            if whole:
+                if verdict is None:
+                    verdict, why = True, "c7n_rewrite hands the policy's whole `filters` list to logical_connector at the default level"
+                continue
+            inner = f
+            part = False
+            while isinstance(inner, ast.Subscript):
+                if isinstance(inner.slice, ast.Constant) and inner.slice.value == "filters":
+                    part = True
+                    break
+                inner = inner.value
+            if part:
+                verdict, why, site = False, (f"on the path `{p.cond_text()[-70:]}` c7n_rewrite enters logical_connector at `{ast.unparse(f)[:50]}`, a part of the `filters` list, instead of the list: every node below is "
+                                             "one level higher than the parenthesisation scheme assumes, so an `or` under the single top-level `and`/`not` is emitted without parentheses"), mod.loc(p.node or entry)
+                break
+            verdict, why = None, f"the filter argument `{ast.unparse(f)[:50] if f is not None else '?'}` was not recognised"
+            break
+        if verdict is None:
+            run.inconclusive("C18.B7", "c7n_rewrite", why)
+        else:
+            run.ob("C18.B7", "c7n_rewrite|entry", verdict, why, site)
     # B5 -----------------------------------------------------------------
     for b in branches:
         bad = [c for c in b["calls"] if c != "level + 1"]
